@@ -347,7 +347,14 @@ func c04hGenPhashx(r *rng) string {
 	}
 	if r.chance(1, 4) {
 		labels := []string{"master secret", "key expansion", "client finished", "server finished"}
-		return join([]string{"prfgmx", hx(secret), hx([]byte(labels[r.intn(4)])), hx(seed), strconv.Itoa(n)})
+		label := []byte(labels[r.intn(4)])
+		if r.chance(1, 2) { // exporter labels are chosen by the application: any length, with the 64-byte seed of two randoms
+			label = r.bytes(r.pick([]int{0, 1, 20, 31, 32, 33, 40, 63, 64, 65, 96, 97, 200}))
+			if r.chance(2, 3) {
+				seed = r.bytes(r.pick([]int{32, 64, 64, 65}))
+			}
+		}
+		return join([]string{"prfgmx", hx(secret), hx(label), hx(seed), strconv.Itoa(n)})
 	}
 	return join([]string{"phashx", hx(secret), hx(seed), strconv.Itoa(n)})
 }
